@@ -7,14 +7,18 @@
   C07.4 (public?, algorithm) -> class table: public entries are not private classes; private entries extend their public sibling
   C07.5 private operations carry is_public=False and the precondition check runs before the action
   C07.6 the export emits only the key packet, signatures, user id/attribute packets and subkeys; block label follows the class
+  C07.7 what is attached to the public twin are faithful copies: complete (shared copy rules of C14.4 under this id), made through
+        the class of the thing copied (a container copied through another class is framed differently), not re-encoded
+
+Rules read interpreter values, path decisions as truth tables and finite scenarios (kind x algorithm for the key-material class,
+one symbolic element per attaching loop); nothing compares source text, local names or statement shapes.
 """
 import ast
 import re
 
-from sa.interp import expand_bound, alpha, Interp, Scenario, Sym, Const, Bytes, render
+from sa.interp import expand_bound, Interp, Scenario, Sym, Const, Bytes, Obj, Enum, render
 from sa.loader import AnalysisError, dotted
-from sa.cfg import CFG, calls_in
-from sa import families, tables, keyaction
+from sa import families, keyaction
 
 noinline = lambda f: False  # noqa: E731
 
@@ -26,6 +30,7 @@ def run(rep, prog, tier):
     rep.rule('C07.4', 'key-material class table: public/private pairing per algorithm', floor=9)
     rep.rule('C07.5', 'private operations require is_public=False; check precedes the action', floor=8)
     rep.rule('C07.6', 'export emits only key, signature, user id and subkey packets; label by class', floor=3)
+    rep.rule('C07.7', 'what is attached to the public twin are faithful copies: complete, same class, not re-encoded', floor=12)
     rep.assume('copy.copy of a PGPUID / PGPSignature copies public data only (they hold no key material)')
 
     families.check_pubkey_derivation(rep, prog, 'C07.1')
@@ -36,6 +41,12 @@ def run(rep, prog, tier):
     keyaction.check_private_ops(rep, prog, 'C07.5')
     keyaction.check_call_order(rep, prog, 'C07.5')
     check_export(rep, prog)
+    check_copy_fidelity(rep, prog)
+
+
+def _fresh_key_objects(s):
+    """names bound on this path to a newly constructed PGPKey() (by what is constructed, not by what it is called)"""
+    return [e[1] for e in s.events if e[0] == 'assign' and e[1] == e[2] and 'PGPKey' in e[4]]
 
 
 def check_key_pubkey(rep, prog):
@@ -45,116 +56,269 @@ def check_key_pubkey(rep, prog):
     if g is None:
         raise AnalysisError('PGPKey.pubkey getter vanished')
     rep.saw(fn=g)
+    me = g.params[0]
+    sib = '%s._sibling' % me
+
+    def twin_key_stores(s):
+        return [(p[:-len('._key')], v) for p, v, l, _ in s.stores if p.endswith('._key') and p != '%s._key' % me]
     # (a) construction arm
-    sc = Scenario(bind={'self.is_public': Const(False), 'self._sibling': Const(None)}, inline=noinline)
+    sc = Scenario(bind={'%s.is_public' % me: Const(False), sib: Const(None)}, inline=noinline)
     outs = Interp(prog, sc).run(g)
     built = False
+    colls = {}            # collection a loop ranges over -> (expanded) value it attaches per element
     for s in outs:
-        k = [v for p, v, l, _ in s.stores if p == 'pub._key']
-        if not k:
+        tk = twin_key_stores(s)
+        if not tk:
             continue
         built = True
-        rep.check(k == ['self._key.pubkey()'], 'C07.2', 'PGPKey.pubkey', 'pub._key = %s' % k,
+        names = sorted(set(n for n, v in tk))
+        if len(names) != 1 or names[0] not in _fresh_key_objects(s):
+            raise AnalysisError('PGPKey.pubkey: the object receiving the public packet (%s) is not a key object built here' % names)
+        twin = names[0]
+        k = [v for n, v in tk]
+        rep.check(k == ['%s._key.pubkey()' % me], 'C07.2', 'PGPKey.pubkey', 'pub._key = %s' % k,
                   'the twin\'s key packet must be the public half derived from the private packet', where=g.where,
-                  expected='self._key.pubkey()', found=k)
-        ors = [e for e in s.events if e[0] == 'ior' and e[1].startswith('pub') or (e[0] == 'ior' and 'PGPKey()' in e[1])]
-        vals = sorted(set(expand_bound(s, e[2]) for e in s.events if e[0] == 'ior'))
-        SUBKEY_TWINS = ('self.subkeys.items()[*]_1.pubkey', 'self.subkeys.values()[*].pubkey', 'self._children.items()[*]_1.pubkey',
-                        'self._children.values()[*].pubkey')
+                  expected='%s._key.pubkey()' % me, found=k)
+        # everything or-ed into the twin, in order; `cur` is the text of the twin after the attachments so far
+        cur, attached = twin, []
+        for e in s.events:
+            if e[0] == 'ior' and e[1] == cur:
+                attached.append(e[2])
+                cur = '(%s | %s)' % (cur, e[2])
+            elif e[0] == 'call' and e[1] == '%s.__or__' % cur and len(e[2]) == 1:
+                attached.append(e[2][0])          # twin.__or__(x) (result dropped): the in-place attachment, the twin itself stays
+        if not attached and render(s.env.get(twin, Sym(twin))) != twin:
+            raise AnalysisError('PGPKey.pubkey: how the twin is filled is not understood (%s)' % render(s.env.get(twin))[:120])
+        vals = sorted(set(expand_bound(s, v) for v in attached))
+        for v in attached:
+            for b in re.findall(r'\$[\d.]*\d', v):
+                if b in s.bound:
+                    colls[s.bound[b]] = (expand_bound(s, v), s.filters.get(b, '').replace(b, 'EV'))
+        SUBKEY_TWINS = tuple(t.replace('%s', me) for t in (
+            '%s.subkeys.items()[*]_1.pubkey', '%s.subkeys.values()[*].pubkey', '%s._children.items()[*]_1.pubkey', '%s._children.values()[*].pubkey',
+            '%s.subkeys[%s.subkeys[*]].pubkey', '%s.subkeys[%s.subkeys.keys()[*]].pubkey', '%s._children[%s._children[*]].pubkey',
+            '%s._children[%s._children.keys()[*]].pubkey', '%s.subkeys[%s.subkeys.items()[*]_0].pubkey'))
         vals = ['<subkey>.pubkey' if v in SUBKEY_TWINS else v for v in vals]
-        allowed = {'<subkey>.pubkey', 'copy.copy(self._uids[*])', 'copy.copy(self._signatures[*])'}
+        allowed = {'<subkey>.pubkey', 'copy.copy(%s._uids[*])' % me, 'copy.copy(%s._signatures[*])' % me}
         rep.check(bool(vals) and set(vals) <= allowed, 'C07.2', 'PGPKey.pubkey', 'attached: %s' % vals,
                   'only public twins of subkeys and copies of user ids / signatures may be attached to the public twin', where=g.where,
                   expected=sorted(allowed), found=vals)
         rep.check(set(vals) == allowed, 'C07.2', 'PGPKey.pubkey', 'attached kinds %s' % vals,
                   'the twin must carry the subkeys, identities and signatures of the private key', where=g.where, expected=sorted(allowed), found=vals)
         r = render(s.ret)
-        rep.check(r in ('self._sibling()', 'pub', 'weakref.ref(pub)()'), 'C07.2', 'PGPKey.pubkey', 'returns %s' % r,
+        linked = [v for p, v, l, _ in s.stores if p == sib]
+        ok = r in (cur, 'weakref.ref(%s)()' % cur) or (r == '%s()' % sib and linked[-1:] == ['weakref.ref(%s)' % cur])
+        rep.check(ok, 'C07.2', 'PGPKey.pubkey', 'returns %s' % (r if len(r) < 60 else r[:57] + '...'),
                   'the object returned must be the twin that was just built', where=g.where, found=r)
     if not built:
         rep.violation('C07.2', 'PGPKey.pubkey', 'no construction arm', 'a private key with no twin yet does not build one', where=g.where)
+    _check_attach_conditions(rep, prog, g, me, sib, colls, twin_key_stores)
     # public keys return themselves
-    for s in Interp(prog, Scenario(bind={'self.is_public': Const(True)}, inline=noinline)).run(g):
-        rep.check(render(s.ret) == 'self', 'C07.2', 'PGPKey.pubkey', 'public key returns %s' % render(s.ret), 'a public key is its own public twin',
+    for s in Interp(prog, Scenario(bind={'%s.is_public' % me: Const(True)}, inline=noinline)).run(g):
+        rep.check(render(s.ret) == me, 'C07.2', 'PGPKey.pubkey', 'public key returns %s' % render(s.ret), 'a public key is its own public twin',
                   where=g.where)
     # (b) is the rebuild unconditional when a twin already exists?  (_sibling is None or a weakref.ref - class invariant from __init__/pubkey)
-    sc = Scenario(bind={'self.is_public': Const(False), 'self._sibling': Sym('self._sibling', types={'ref'}, nonnull=True)}, inline=noinline)
+    sc = Scenario(bind={'%s.is_public' % me: Const(False), sib: Sym(sib, types={'ref'}, nonnull=True)}, inline=noinline)
     outs = Interp(prog, sc).run(g)
-    stale_paths = [s for s in outs if s.raised is None and not any(p == 'pub._key' for p, v, l, _ in s.stores)]
+    stale_paths = [s for s in outs if s.raised is None and not twin_key_stores(s)]
     if stale_paths:
         # a live twin may be returned without rebuilding: then every mutation of the certificate state must go through __or__ (which mirrors)
-        bypass = []
-        for name, defs in ci.all_defs.items():
-            if name in ('__or__', '__init__', '__copy__', 'parse'):
-                continue
-            for f in defs:
-                for n in ast.walk(f.node):
-                    t = None
-                    if isinstance(n, ast.Assign):
-                        for tg in n.targets:
-                            if isinstance(tg, ast.Subscript) and ast.unparse(tg.value) in ('self._children', 'self._uids', 'self._signatures'):
-                                t = ast.unparse(n)
-                    elif isinstance(n, ast.Call) and isinstance(n.func, ast.Attribute) and n.func.attr in ('remove', 'insort', 'append', 'pop') and \
-                            ast.unparse(n.func.value) in ('self._children', 'self._uids', 'self._signatures'):
-                        t = ast.unparse(n)
-                    if t:
-                        bypass.append('%s: %s' % (f.qualname, t))
+        bypass = _state_changes_outside_or(ci)
         rep.check(not bypass, 'C07.2', 'PGPKey.pubkey', 'cached twin returned while state changes bypass __or__: %s' % bypass,
                   'an existing public twin is returned without being rebuilt, yet %d operations change the key without mirroring '
                   'them to the twin: the twin can lack later subkeys / keep removed identities' % len(bypass), where=g.where,
                   expected='rebuild on every access, or mirror every mutation', found=bypass)
     else:
         rep.ok('C07.2', 'PGPKey.pubkey', 'the twin is rebuilt on every access of a private key')
-    # (c) a key accepts only children of its own kind, unconditionally
+    check_or(rep, prog, ci)
+
+
+def _check_attach_conditions(rep, prog, g, me, sib, colls, twin_key_stores):
+    """Every subkey and every identity is attached unconditionally; a key-level signature exactly when it has no parent (the ones
+    that belong to an identity travel with it).  Decisions inside a summarised loop are not kept by the interpreter, so each
+    loop is run once for a single symbolic element and the truth table of its decisions is read."""
+    from sa.keyaction import assignments, consistent, _show
+    from sa.interp import ListV
+    for coll, (what, filt) in sorted(colls.items()):
+        is_sig = what.endswith('._signatures[*])') and 'copy.copy(' in what
+        kind = 'signature' if is_sig else ('identity' if '_uids' in what else 'subkey')
+        if filt:
+            # the iteration itself is filtered (for x in (y for y in C if f)): the filter is the attach condition
+            f = filt.strip()
+            while f.startswith('(') and f.endswith(')'):
+                f = f[1:-1].strip()
+            ok = is_sig and f in ('EV._parent is None', 'None is EV._parent', 'not EV.embedded', 'EV._parent == None')
+            rep.check(ok, 'C07.2', 'PGPKey.pubkey', 'every %s of %s is carried over (filter %s)' % (kind, coll, f),
+                      'the twin must carry the subkeys, identities and signatures of the private key (key-level signatures: exactly those without a parent)',
+                      where=g.where, expected='no filter' if not is_sig else 'only signatures without a parent', found=f)
+            continue
+        pair = coll.endswith('.items()')
+        elem = ListV([Sym('EK', nonnull=True), Sym('EV', nonnull=True)], 'tuple') if pair else Sym('EV', nonnull=True)
+        sc = Scenario(bind={'%s.is_public' % me: Const(False), sib: Const(None)}, unroll={coll: [elem]}, inline=noinline)
+        outs = [s for s in Interp(prog, sc).run(g) if s.raised is None and twin_key_stores(s)]
+        if not outs:
+            raise AnalysisError('PGPKey.pubkey: construction path lost when %s is a single element' % coll)
+        bad = None
+        for assign in assignments(outs):
+            for s in [x for x in outs if consistent(x, assign)]:
+                att = any((e[0] == 'ior' and re.search(r'\bE[KV]\b', e[2])) or
+                          (e[0] == 'call' and e[1].endswith('.__or__') and any(re.search(r'\bE[KV]\b', a) for a in e[2])) for e in s.events)
+                if is_sig:
+                    orphan = assign.get(('eq', frozenset(('EV._parent', 'None'))))
+                    emb = assign.get(('expr', 'EV.embedded'))
+                    want = orphan if orphan is not None else (None if emb is None else not emb)
+                    if want is None or att != want:
+                        bad = bad or (assign, att)
+                elif not att:
+                    bad = bad or (assign, att)
+        rep.check(bad is None, 'C07.2', 'PGPKey.pubkey', 'every %s of %s is carried over' % (kind, coll),
+                  'the twin must carry the subkeys, identities and signatures of the private key' if not is_sig else
+                  'the twin must carry the subkeys, identities and signatures of the private key (key-level signatures: exactly those without a parent)',
+                  where=g.where, expected='attached unconditionally' if not is_sig else 'attached iff the signature has no parent',
+                  found=None if bad is None else 'under [%s] the %s is %s' % (_show(bad[0]), kind, 'attached' if bad[1] else 'left out'))
+
+
+STATE = ('_children', '_uids', '_signatures')
+
+
+def _state_changes_outside_or(ci):
+    """Methods of PGPKey (other than __or__ and the constructors) that add to / remove from the certificate state directly."""
+    bypass = []
+    for name, defs in ci.all_defs.items():
+        if name in ('__or__', '__init__', '__copy__', 'parse'):
+            continue
+        for f in defs:
+            if not f.params:
+                continue
+            me = f.params[0]
+            names = {}                       # local aliases of the state collections
+            for n in ast.walk(f.node):
+                if isinstance(n, ast.Assign) and len(n.targets) == 1 and isinstance(n.targets[0], ast.Name) and \
+                        dotted(n.value) in ['%s.%s' % (me, a) for a in STATE]:
+                    names[n.targets[0].id] = dotted(n.value)
+
+            def coll(x):
+                d = dotted(x)
+                d = names.get(d, d)
+                return d if d in ['%s.%s' % (me, a) for a in STATE] else None
+            for n in ast.walk(f.node):
+                t = None
+                if isinstance(n, (ast.Assign, ast.AugAssign, ast.Delete)):
+                    tgs = n.targets if not isinstance(n, ast.AugAssign) else [n.target]
+                    for tg in tgs:
+                        if isinstance(tg, ast.Subscript) and coll(tg.value):
+                            t = ast.unparse(n)
+                elif isinstance(n, ast.Call) and isinstance(n.func, ast.Attribute) and \
+                        n.func.attr in ('remove', 'insort', 'append', 'appendleft', 'pop', 'popleft', 'clear', 'extend', 'update', 'setdefault', 'insert') and \
+                        coll(n.func.value):
+                    t = ast.unparse(n)
+                if t:
+                    bypass.append('%s: %s' % (f.qualname, t))
+    return bypass
+
+
+def check_or(rep, prog, ci):
+    """(c) a key accepts only children of its own kind, unconditionally: on every path of __or__ that files `other` under the
+    subkeys, the decisions taken imply  isinstance(other, PGPKey), not other.is_primary, other.is_public == self.is_public."""
+    from sa.keyaction import assignments, consistent, _show
     orf = ci.methods.get('__or__')
-    arms = []
-    node = next((n for n in orf.node.body if isinstance(n, ast.If)), None)
-    while isinstance(node, ast.If):
-        arms.append(node)
-        node = node.orelse[0] if len(node.orelse) == 1 and isinstance(node.orelse[0], ast.If) else None
-    sub_arm = [a for a in arms if 'isinstance(other, PGPKey)' in ast.unparse(a.test)]
-    if len(sub_arm) != 1:
+    if orf is None or len(orf.params) < 2:
+        raise AnalysisError('PGPKey.__or__ vanished')
+    me, other = orf.params[0], orf.params[1]
+    outs = Interp(prog, Scenario(inline=noinline)).run(orf)
+    attach = [s for s in outs if any(p.startswith('%s._children[' % me) and v == other for p, v, l, _ in s.stores)]
+    if not attach:
         raise AnalysisError('PGPKey.__or__: subkey attachment arm not found')
-    t = sub_arm[0].test
-    conj = [ast.unparse(v) for v in t.values] if isinstance(t, ast.BoolOp) and isinstance(t.op, ast.And) else [ast.unparse(t)]
-    same_kind = any(c.replace(' ', '') in ('other.is_public==self.is_public', 'self.is_public==other.is_public') for c in conj)
-    rep.check(same_kind and 'not other.is_primary' in conj, 'C07.2', 'PGPKey.__or__', 'subkey arm: %s' % conj,
+    is_key = ('call', 'isinstance', (other, 'PGPKey'))
+    primary = ('expr', '%s.is_primary' % other)
+    same = ('eq', frozenset(('%s.is_public' % other, '%s.is_public' % me)))
+    bad = None
+    for assign in assignments(attach):
+        if not any(consistent(s, assign) for s in attach):
+            continue
+        if assign.get(is_key) is not True or assign.get(primary) is not False or assign.get(same) is not True:
+            bad = assign
+            break
+    line = min(l for s in attach for p, v, l, _ in s.stores if p.startswith('%s._children[' % me))
+    rep.check(bad is None, 'C07.2', 'PGPKey.__or__', 'subkey arm%s' % ('' if bad is None else ': taken under [%s]' % _show(bad)),
               'a key object must only ever accept subkeys of its own kind (public into public, private into private), '
-              'also when the addition is mirrored from its sibling', where='%s:%d' % (orf.module.relpath, sub_arm[0].lineno),
-              expected='isinstance(other, PGPKey) and not other.is_primary and other.is_public == self.is_public', found=ast.unparse(t))
+              'also when the addition is mirrored from its sibling', where='%s:%d' % (orf.module.relpath, line),
+              expected='isinstance(other, PGPKey) and not other.is_primary and other.is_public == self.is_public',
+              found=None if bad is None else _show(bad))
     # the mirror passes a copy and marks it so that it is not mirrored back
-    mir = [n for n in ast.walk(orf.node) if isinstance(n, ast.Call) and isinstance(n.func, ast.Attribute) and n.func.attr == '__or__']
-    for n in mir:
-        a = [ast.unparse(x) for x in n.args]
-        rep.check(a == ['copy.copy(other)', 'True'], 'C07.2', 'PGPKey.__or__', 'mirror call %s' % a, 'the sibling receives a copy, marked as coming from the sibling',
-                  where='%s:%d' % (orf.module.relpath, n.lineno))
+    seen = []
+    flag = orf.params[2] if len(orf.params) > 2 else None
+    for s in outs:
+        for c in s.calls:
+            if c[0].endswith('.__or__') and (c[0], c[3]) not in seen:
+                seen.append((c[0], c[3]))
+                a = list(c[1]) + ([c[2][flag]] if flag in c[2] else [])
+                rep.check(a == ['copy.copy(%s)' % other, 'True'], 'C07.2', 'PGPKey.__or__', 'mirror call %s' % a,
+                          'the sibling receives a copy, marked as coming from the sibling', where='%s:%d' % (orf.module.relpath, c[3]))
+
+
+def selected_material(prog, f, public, alg):
+    """Class of the key material PubKeyV4.pkalg_int installs in a packet of the given kind for the given algorithm: the setter
+    is interpreted with the kind and the algorithm as scenario facts, table lookups with constant keys are decided by the
+    interpreter - whatever holds the table (a dict in the function, a class / module constant, two tables, an if-chain)."""
+    me = f.params[0]
+    bind = {'%s.public' % me: Const(public), '%s.pkalg' % me: alg, '%s._pkalg' % me: alg}
+    args = {p: alg for p in f.params[1:]}
+    out = set()
+    for s in Interp(prog, Scenario(bind=bind, args=args, inline=noinline, extended=True)).run(f):
+        if s.raised is not None:
+            continue
+        vals = [v for p, t, l, v in s.stores if p == '%s.keymaterial' % me]
+        if not vals:
+            raise AnalysisError('PubKeyV4.pkalg_int: a path stores no key material')
+        v = vals[-1]
+        if not isinstance(v, Obj) or v.cls is None:
+            raise AnalysisError('PubKeyV4.pkalg_int: key material for (%s, %s) is not a decided class: %s' % (public, render(alg), render(v)[-80:]))
+        out.add(v.cls)
+    if len(out) != 1:
+        raise AnalysisError('PubKeyV4.pkalg_int: %d candidate classes for (%s, %s)' % (len(out), public, render(alg)))
+    return out.pop()
 
 
 def check_table(rep, prog):
-    f, tbl = tables.keymaterial_table(prog)
+    ci = prog.cls('pgpy.packet.packets', 'PubKeyV4')
+    f = ci.methods.get('pkalg_int')
+    if f is None:
+        raise AnalysisError('PubKeyV4.pkalg_int vanished')
     fields = prog.module('pgpy.packet.fields')
     privbase = fields.classes.get('PrivKey')
     if privbase is None:
         raise AnalysisError('fields.PrivKey vanished')
-    algs = sorted(set(a for (_, a) in tbl))
-    for a in algs:
-        pub = fields.classes.get(tbl.get((True, a), ''))
-        priv = fields.classes.get(tbl.get((False, a), ''))
-        if pub is None or priv is None:
-            rep.violation('C07.4', 'PubKeyV4.pkalg_int', 'row %s: %s / %s' % (a, tbl.get((True, a)), tbl.get((False, a))),
+    members = prog.cls('pgpy.constants', 'PubKeyAlgorithm').enum_members()
+    if len(members) < 9:
+        raise AnalysisError('PubKeyAlgorithm has only %d members' % len(members))
+    opaque = lambda c: c.name.startswith('Opaque')  # noqa: E731
+    n_real = 0
+    for a, val in sorted(members.items(), key=lambda kv: kv[1]):
+        alg = Const(Enum('PubKeyAlgorithm', a, val))
+        pub = selected_material(prog, f, True, alg)
+        priv = selected_material(prog, f, False, alg)
+        if opaque(pub) and opaque(priv):
+            # not implemented: opaque material of the packet's own kind
+            ok = privbase not in pub.mro() and privbase in priv.mro()
+            rep.check(ok, 'C07.4', 'PubKeyV4.pkalg_int', 'fallback %s: public=%s private=%s' % (a, pub.name, priv.name),
+                      'unknown algorithms get opaque material of the packet\'s own kind', where=f.where,
+                      expected='OpaquePubKey / OpaquePrivKey', found=[pub.name, priv.name], scenario=a)
+            continue
+        n_real += 1
+        if opaque(pub) or opaque(priv):
+            rep.violation('C07.4', 'PubKeyV4.pkalg_int', 'row %s: %s / %s' % (a, pub.name, priv.name),
                           'algorithm %s lacks a public or a private key-material class' % a, where=f.where, scenario=a)
             continue
         ok = privbase not in pub.mro() and privbase in priv.mro() and pub in priv.mro()
         rep.check(ok, 'C07.4', 'PubKeyV4.pkalg_int', '%s: public=%s private=%s' % (a, pub.name, priv.name),
                   'a public key packet must be given public-only key material, and the private class must extend exactly that public class',
                   where=f.where, expected='public class not a PrivKey; private class a PrivKey subclass of the public one',
-                  found='public %s (mro %s)' % (pub.name, [c.name for c in pub.mro()][:4]), scenario=a)
+                  found='public %s (mro %s), private %s' % (pub.name, [c.name for c in pub.mro()][:4], priv.name), scenario=a)
         rep.check(not pub.find_attr('__privfields__') or ast.literal_eval(pub.find_attr('__privfields__')) == (), 'C07.4', pub.name,
                   '%s has no private fields' % pub.name, 'public key material declares no secret fields', where=pub.where, scenario=a)
-    # the selector: public iff PubKey and not PrivKey; fallback classes follow the same split
-    src = ast.unparse(f.node)
-    rep.check('(self.public, self.pkalg)' in src and 'OpaquePubKey if self.public else OpaquePrivKey' in src, 'C07.4', 'PubKeyV4.pkalg_int',
-              'selector (self.public, self.pkalg)', 'the class is selected by the packet\'s own public/private kind', where=f.where)
+    rep.check(n_real >= 9, 'C07.4', 'PubKeyV4.pkalg_int', '%d algorithms with their own key-material classes' % n_real,
+              'the implemented algorithms keep their public / private key-material classes', where=f.where, expected='at least 9', found=n_real)
     pub = prog.method('pgpy.packet.packets', 'PubKeyV4', 'public')
     _public_predicate(rep, prog, pub, 'PubKeyV4.public', 'self', 'PubKey', 'PrivKey', 'C07.4')
     # packet class hierarchy: secret packet classes carry the Private marker, public ones do not
@@ -185,9 +349,13 @@ def check_export(rep, prog):
                     flat.append(it)
         walk(its)
         srcs = sorted(set(expand_bound(s, it[1]) for it in flat if it[0] == 'SYM'))
-        allowed = {'self._key.__bytearray__()', 'self._signatures[*].__bytearray__()', 'self._uids[*]._uid.__bytearray__()',
-                   'self._uids[*]._signatures[*].__bytearray__()', 'self._children.values()[*].__bytearray__()',
-                   'self.subkeys.values()[*].__bytearray__()'}
+        if not isinstance(s.ret, Bytes) or any(it[0] != 'SYM' for it in flat) or \
+                any(not re.match(r'^[\w.$\[\]*()]+\.__bytearray__\(\)$', x) for x in srcs):
+            raise AnalysisError('PGPKey.__bytearray__: export not understood as a sequence of serialised packets: %s' % render(s.ret)[:160])
+        allowed = {t.replace('self', f.params[0], 1) for t in (
+            'self._key.__bytearray__()', 'self._signatures[*].__bytearray__()', 'self._uids[*]._uid.__bytearray__()',
+            'self._uids[*]._signatures[*].__bytearray__()', 'self._children.values()[*].__bytearray__()',
+            'self.subkeys.values()[*].__bytearray__()')}
         rep.check(set(srcs) <= allowed and all(it[0] == 'SYM' for it in flat), 'C07.6', 'PGPKey.__bytearray__', 'emits %s' % srcs,
                   'a key export consists of the key packet, signatures, user id/attribute packets and subkeys only', where=f.where,
                   expected=sorted(allowed), found=srcs)
@@ -196,34 +364,218 @@ def check_export(rep, prog):
     for (a, b), label in want.items():
         def oracle(t, _a=a, _b=b):
             t = t.replace(' ', '')
-            if t == 'isinstance(self._key,Public)':
+            if t == 'isinstance(%s._key,Public)' % m.params[0]:
                 return _a
-            if t == 'isinstance(self._key,Private)':
+            if t == 'isinstance(%s._key,Private)' % m.params[0]:
                 return _b
             return None
-        for s_ in Interp(prog, Scenario(inline=noinline, oracle=oracle)).run(m):
+        for s_ in Interp(prog, Scenario(inline=noinline, oracle=oracle, inline_props={'is_public'}, extended=True)).run(m):
             r = render(s_.ret)
-            rep.check(r == "'{:s} KEY BLOCK'.format(%r)" % label, 'C07.6', 'PGPKey.magic', 'Public=%s Private=%s -> %s' % (a, b, r),
+            folded = fold_str(r)
+            if folded is None:
+                raise AnalysisError('PGPKey.magic: label %s is not a closed string expression' % r)
+            rep.check(folded == ('%s KEY BLOCK' % label), 'C07.6', 'PGPKey.magic', 'Public=%s Private=%s -> %s' % (a, b, folded),
                       'the block is labelled PUBLIC exactly for public-only key packets and PRIVATE for secret ones', where=m.where,
                       expected='%s KEY BLOCK' % label, found=r, scenario='Public=%s, Private=%s' % (a, b))
     ip = prog.method('pgpy.pgp', 'PGPKey', 'is_public')
     _public_predicate(rep, prog, ip, 'PGPKey.is_public', 'self._key', 'Public', 'Private', 'C07.6')
 
 
+def fold_str(text):
+    """Value of a closed string expression (constants joined by +, %, str.format, str.join; nothing else), or None.
+    Checker-side constant folding of the rendered return value: the label is compared as a string, not as source text."""
+    try:
+        tree = ast.parse(text, mode='eval').body
+    except SyntaxError:
+        return None
+
+    def ev(n):
+        if isinstance(n, ast.Constant) and isinstance(n.value, (str, int)):
+            return n.value
+        if isinstance(n, (ast.Tuple, ast.List)):
+            xs = [ev(e) for e in n.elts]
+            return None if any(x is None for x in xs) else tuple(xs)
+        if isinstance(n, ast.BinOp) and isinstance(n.op, (ast.Add, ast.Mod)):
+            l, r = ev(n.left), ev(n.right)
+            if not isinstance(l, str) or r is None:
+                return None
+            try:
+                return l + r if isinstance(n.op, ast.Add) else l % r
+            except (TypeError, ValueError):
+                return None
+        if isinstance(n, ast.Call) and isinstance(n.func, ast.Attribute) and n.func.attr in ('format', 'join', 'strip', 'lstrip', 'upper'):
+            base = ev(n.func.value)
+            args = [ev(a) for a in n.args]
+            kw = {k.arg: ev(k.value) for k in n.keywords}
+            if not isinstance(base, str) or any(a is None for a in args) or None in kw or any(v is None for v in kw.values()):
+                return None
+            try:
+                if n.func.attr == 'format':
+                    return base.format(*args, **kw)
+                if n.func.attr == 'join' and len(args) == 1 and isinstance(args[0], tuple):
+                    return base.join(args[0])
+                if n.func.attr in ('strip', 'lstrip', 'upper') and not args:
+                    return getattr(base, n.func.attr)()
+            except (TypeError, ValueError, IndexError, KeyError):
+                return None
+        return None
+    v = ev(tree)
+    return v if isinstance(v, str) else None
+
+
 def _public_predicate(rep, prog, fn, construct, obj, pubname, privname, rid):
-    """The predicate must be true exactly for (is-a public packet, not a secret packet)."""
+    """The predicate must be true exactly for (is-a public packet, not a secret packet).  The two isinstance atoms are scenario
+    facts; the receiver is left untyped so that the class table cannot answer them, and a returned expression that still
+    contains the atoms (`return isinstance(x, A)`) is evaluated under the same facts."""
+    if obj.split('.')[0] == 'self':
+        obj = fn.params[0] + obj[4:]
+    atom_pub = 'isinstance(%s,%s)' % (obj, pubname)
+    atom_priv = 'isinstance(%s,%s)' % (obj, privname)
+
+    def evaluate(text, a, b):
+        try:
+            tree = ast.parse(text, mode='eval').body
+        except SyntaxError:
+            return None
+
+        def ev(n):
+            if isinstance(n, ast.Constant) and isinstance(n.value, bool):
+                return n.value
+            if isinstance(n, ast.UnaryOp) and isinstance(n.op, ast.Not):
+                v = ev(n.operand)
+                return None if v is None else not v
+            if isinstance(n, ast.BoolOp):
+                vs = [ev(x) for x in n.values]
+                if any(v is None for v in vs):
+                    return None
+                return all(vs) if isinstance(n.op, ast.And) else any(vs)
+            if isinstance(n, ast.IfExp):
+                t = ev(n.test)
+                return None if t is None else ev(n.body if t else n.orelse)
+            if isinstance(n, ast.Call) and dotted(n.func) in ('all', 'any') and len(n.args) == 1 and isinstance(n.args[0], (ast.Tuple, ast.List)):
+                vs = [ev(x) for x in n.args[0].elts]
+                if any(v is None for v in vs):
+                    return None
+                return all(vs) if dotted(n.func) == 'all' else any(vs)
+            if isinstance(n, ast.Call):
+                t = ast.unparse(n).replace(' ', '')
+                if t == atom_pub:
+                    return a
+                if t == atom_priv:
+                    return b
+                if t.startswith('bool(') and len(n.args) == 1:
+                    return ev(n.args[0])
+            return None
+        return ev(tree)
     for a in (True, False):
         for b in (True, False):
             def oracle(t, _a=a, _b=b):
                 t = t.replace(' ', '')
-                if t == 'isinstance(%s,%s)' % (obj, pubname):
+                if t == atom_pub:
                     return _a
-                if t == 'isinstance(%s,%s)' % (obj, privname):
+                if t == atom_priv:
                     return _b
                 return None
-            outs = Interp(prog, Scenario(inline=noinline, oracle=oracle)).run(fn)
-            vals = set(render(s.ret) for s in outs)
+            me = Sym(fn.params[0], nonnull=True)
+            outs = Interp(prog, Scenario(inline=noinline, oracle=oracle)).run(fn, self_val=me)
+            vals = set()
+            for s in outs:
+                r = render(s.ret)
+                v = evaluate(r, a, b)
+                vals.add(repr(v) if v is not None else r)
             want = repr(a and not b)
             rep.check(vals == {want}, rid, construct, '%s=%s %s=%s -> %s' % (pubname, a, privname, b, sorted(vals)),
                       'an object is public iff it is a public-key object and not a secret-key object', where=fn.where, expected=want,
                       found=sorted(vals), scenario='%s=%s, %s=%s' % (pubname, a, privname, b))
+
+
+# ------------------------------------------------------------------------------------------------ C07.7
+class _Renamed(object):
+    """A reporter that files everything a shared rule family reports under this property's rule id."""
+    def __init__(self, rep, mapping):
+        self._rep, self._map = rep, mapping
+
+    def _rid(self, rid):
+        return self._map.get(rid, rid)
+
+    def check(self, cond, rid, *a, **kw):
+        return self._rep.check(cond, self._rid(rid), *a, **kw)
+
+    def ok(self, rid, *a, **kw):
+        return self._rep.ok(self._rid(rid), *a, **kw)
+
+    def violation(self, rid, *a, **kw):
+        return self._rep.violation(self._rid(rid), *a, **kw)
+
+    def error(self, rid, *a, **kw):
+        return self._rep.error(self._rid(rid), *a, **kw)
+
+    def __getattr__(self, name):
+        return getattr(self._rep, name)
+
+
+PACKETS_COPIED = ('PubKeyV4', 'PrivKeyV4', 'PubSubKeyV4', 'PrivSubKeyV4', 'UserID', 'UserAttribute', 'SignatureV4')
+
+
+def field_classes(prog, ci):
+    """attribute -> class of the object a fresh instance of ci holds there (read from the constructors, base classes included)"""
+    ini = ci.find_method('__init__')
+    if ini is None:
+        return {}
+    out = {}
+    sc = Scenario(inline=lambda f: f.name == '__init__', self_cls=ci, max_depth=5)
+    for s in Interp(prog, sc).run(ini):
+        for pth, t, l, v in s.stores:
+            m = re.match(r'^%s\.(\w+)$' % re.escape(ini.params[0]), pth)
+            if m and isinstance(v, Obj) and v.cls is not None:
+                out[m.group(1)] = v.cls
+    return out
+
+
+def check_copy_fidelity(rep, prog):
+    """The public twin is assembled from copy.copy(uid) / copy.copy(sig) / packet copies.  (1) those copies are complete and keep
+    the received octets (the shared copy rules of C14.4, filed here under C07.7: a copy that re-encodes or drops a field changes
+    what the public export says); (2) every copy is made through the class of the thing copied: a __copy__ constructs the
+    receiver's own class, and a field copied with copy.copy() whose class has a __copy__ gets an object of that same class."""
+    from rules import C14
+    C14.copies(_Renamed(rep, {'C14.4': 'C07.7'}), prog)
+    pk = prog.module('pgpy.packet.packets')
+    seen = set()
+
+    def own_class(ci, via, depth=0):
+        """does copying an instance of ci give an instance of ci?  (recursively for the fields it copies with copy.copy)"""
+        if (ci.key, via) in seen or depth > 3:
+            return
+        seen.add((ci.key, via))
+        cpm = ci.find_method('__copy__')
+        if cpm is None:
+            rep.ok('C07.7', '%s.__copy__' % ci.name, 'generic copy (same class, fields shared)')
+            return
+        me = cpm.params[0]
+        fields = None
+        for s in Interp(prog, Scenario(inline=noinline, self_cls=ci)).run(cpm):
+            if s.raised is not None or s.ret is None:
+                continue
+            r = render(s.ret)
+            made = s.ret.cls if isinstance(s.ret, Obj) else None
+            fresh = [e[2] for e in s.events if e[0] == 'assign' and e[1] == r]
+            same = made is ci or (made is None and any(t in ('%s.__class__()' % me, 'type(%s)()' % me) for t in fresh + [r]))
+            if made is None and not same and not fresh:
+                raise AnalysisError('%s.__copy__: cannot tell what it returns (%s)' % (ci.name, r))
+            rep.check(same, 'C07.7', '%s.__copy__' % ci.name, '%s copied as %s%s' % (ci.name, made.name if made is not None else (fresh or [r])[0], via),
+                      'a copy must be an object of the class of the thing copied (a container copied through another class is serialised '
+                      'with the other class\'s framing)', where=cpm.where, expected='%s (self.__class__())' % ci.name,
+                      found=made.name if made is not None else (fresh or [r])[0])
+            for pth, t, l, v in s.stores:
+                m = re.match(r'^copy\.(?:copy|deepcopy)\(%s\.(\w+)\)$' % re.escape(me), t)
+                if m and pth.startswith(r + '.'):
+                    if fields is None:
+                        fields = field_classes(prog, ci)
+                    fc = fields.get(m.group(1)) or fields.get(m.group(1).lstrip('_')) or fields.get('_' + m.group(1))
+                    if fc is not None and fc.find_method('__copy__') is not None:
+                        own_class(fc, ' (field %s of %s)' % (m.group(1), ci.name), depth + 1)
+    for name in PACKETS_COPIED:
+        c = pk.classes.get(name)
+        if c is None:
+            raise AnalysisError('packet class %s vanished' % name)
+        own_class(c, '')
